@@ -19,10 +19,20 @@ from qce_circuit.structure.intrf_registry import (
     IRegistry,
     IRegistryGetter,
 )
-from qce_circuit.structure.intrf_circuit_operation import ICircuitOperation
+from qce_circuit.structure.intrf_circuit_operation import (
+    ICircuitOperation,
+    RelationLink,
+    MultiRelationLink,
+)
 
 
 TRegistryKey = str
+
+
+def clear_start_time_cache() -> None:
+    """Clears memoized (relation-based) start times. Required whenever operation durations change."""
+    RelationLink.get_start_time.cache_clear()
+    MultiRelationLink.get_start_time.cache_clear()
 
 
 @unique
@@ -100,9 +110,11 @@ def temporary_override_get_registry_at(temp_registry: Dict[GlobalRegistryKey, fl
 
     try:
         GlobalDurationRegistry.get_registry_at = temp_get_registry_at
+        clear_start_time_cache()
         yield
     finally:
         GlobalDurationRegistry.get_registry_at = original_method
+        clear_start_time_cache()
 
 
 class DurationRegistry(IRegistry[TRegistryKey, float]):
@@ -128,6 +140,7 @@ class DurationRegistry(IRegistry[TRegistryKey, float]):
         :param value: The duration value to be associated with the key.
         """
         self._variable_durations[key] = value
+        clear_start_time_cache()
 
     def get_registry_at(self, key: TRegistryKey) -> float:
         """
